@@ -77,21 +77,62 @@ fn write_event(out: &mut Out, nr: usize, nc: usize, ones: &[(usize, usize)], pad
     }
 }
 
+/// "moderate declared dimensions" (the property's domain): the two numbers of the first line
 fn declared_too_big(text: &str) -> bool {
-    // "moderate declared dimensions": no numeric token anywhere in the text may exceed 20000, so that whichever
-    // line a (possibly changed) parser takes the dimensions from, it cannot be asked to allocate gigabytes
-    text.split_whitespace().any(|t| match t.trim_start_matches('+').parse::<u128>() {
-        Ok(v) => v > 20_000,
-        Err(_) => false,
-    })
+    text.split('\n').next().unwrap_or("").split_whitespace().any(|t| t.trim_start_matches('+').parse::<u128>().map(|v| v > 20_000).unwrap_or(false))
 }
+
+/// a numeric token above 20000 anywhere else (weights, indices): inside the domain, but a (changed) parser might take it for a size and
+/// allocate gigabytes - such texts are parsed in a CHILD process under an address-space limit, so that the harness survives
+fn risky(text: &str) -> bool {
+    text.split_whitespace().any(|t| t.trim_start_matches('+').parse::<u128>().map(|v| v > 20_000).unwrap_or(false))
+}
+
+/// child: parse the text in --in under a 3 GiB address-space limit and write the outcome to --out
+pub fn child(a: &Args) {
+    unsafe {
+        let lim = libc::rlimit { rlim_cur: 3 << 30, rlim_max: 3 << 30 };
+        libc::setrlimit(libc::RLIMIT_AS, &lim);
+    }
+    let text = std::fs::read_to_string(a.input.as_ref().expect("--in")).unwrap_or_default();
+    let v = match parsed(&text) { Ok(p) => json!({"o": "ok", "p": p}), Err(m) => json!({"o": "panic", "msg": m}) };
+    std::fs::write(&a.out, v.to_string()).unwrap();
+}
+
+fn parsed_in_child(text: &str, work: &str) -> Result<Value, (String, String)> {
+    let inp = format!("{work}/c08-risky.txt");
+    let outp = format!("{work}/c08-risky.out");
+    std::fs::write(&inp, text).unwrap();
+    let _ = std::fs::remove_file(&outp);
+    let exe = std::env::current_exe().unwrap();
+    let st = std::process::Command::new("timeout").arg("30").arg(exe).args(["parsechild", "C08", "--in", &inp, "--out", &outp])
+        .stdout(std::process::Stdio::null()).stderr(std::process::Stdio::null()).status();
+    let res: Option<Value> = std::fs::read_to_string(&outp).ok().and_then(|t| serde_json::from_str(&t).ok());
+    let _ = std::fs::remove_file(&inp);
+    let _ = std::fs::remove_file(&outp);
+    match res {
+        Some(v) if v["o"] == "ok" => Ok(v["p"].clone()),
+        Some(v) => Err(("panic".into(), v["msg"].as_str().unwrap_or("").to_string())),
+        None => Err(("abort".into(), format!("the parsing process died ({st:?}): allocation failure / abort / time-out"))),
+    }
+}
+
+thread_local! { static WORK: std::cell::RefCell<String> = const { std::cell::RefCell::new(String::new()) }; }
 
 fn parse_event(out: &mut Out, text: &str, kind: &str) {
     if declared_too_big(text) {
-        return; // "moderate declared dimensions"
+        return; // outside the property's domain ("moderate declared dimensions")
     }
     out.new_case();
     let (lines, _) = tokenise(text);
+    if risky(text) {
+        let work = WORK.with(|w| w.borrow().clone());
+        match parsed_in_child(text, &work) {
+            Ok(p) => out.ev("Parse", "ok", merge(json!({"lines": lines, "kind": kind, "child": true}), p)),
+            Err((o, m)) => out.ev("Parse", &o, json!({"lines": lines, "kind": kind, "child": true, "msg": m, "text": text.chars().take(300).collect::<String>()})),
+        }
+        return;
+    }
     match parsed(text) {
         Ok(p) => out.ev("Parse", "ok", merge(json!({"lines": lines, "kind": kind}), p)),
         Err(m) => out.ev("Parse", "panic", json!({"lines": lines, "kind": kind, "msg": m, "text": text.chars().take(300).collect::<String>()})),
@@ -114,7 +155,7 @@ fn random_ones(rng: &mut Rng, nr: usize, nc: usize, dens: u64) -> Vec<(usize, us
 fn mutate(rng: &mut Rng, text: &str) -> String {
     let mut lines: Vec<String> = text.split('\n').map(|s| s.to_string()).collect();
     let n = lines.len();
-    match rng.below(15) {
+    match rng.below(16) {
         0 => { lines.remove(rng.below(n)); }
         1 => { let k = rng.below(n); let l = lines[k].clone(); lines.insert(k, l); }
         2 => { let a = rng.below(n); let b = rng.below(n); lines.swap(a, b); }
@@ -148,6 +189,14 @@ fn mutate(rng: &mut Rng, text: &str) -> String {
             let sp = ["00", "000", "0"][rng.below(3)];
             lines[k] = lines[k].split(' ').map(|t| if t == "0" { sp.to_string() } else if rng.coin(1, 3) && !t.is_empty() && t.bytes().all(|b| b.is_ascii_digit()) { format!("0{t}") } else { t.to_string() }).collect::<Vec<_>>().join(" ");
         }
+        14 => {
+            // one token of a line after the first (a weight or an index) replaced by a huge number
+            let k = if n > 1 { 1 + rng.below(n - 1) } else { 0 };
+            let mut toks: Vec<String> = lines[k].split(' ').map(|t| t.to_string()).collect();
+            let t = rng.below(toks.len().max(1));
+            if !toks.is_empty() { toks[t] = ["1152921504606846976", "4000000000", "18446744073709551615", "18446744073709551616", "300000", "99999999999"][rng.below(6)].to_string(); }
+            lines[k] = toks.join(" ");
+        }
         _ => { let k = rng.below(n); lines[k] = format!("  {}  ", lines[k].replace(' ', "   ")); }
     }
     lines.join("\n")
@@ -170,6 +219,7 @@ fn soup(rng: &mut Rng) -> String {
 
 pub fn generate(a: &Args) {
     let mut out = Out::create(&a.out);
+    WORK.with(|w| *w.borrow_mut() = std::path::Path::new(&a.out).parent().unwrap().to_str().unwrap().to_string());
     let mut rng = Rng::new(a.seed ^ 0xC08);
     let th = is_thorough(a);
     let mut corpus: Vec<String> = vec![];
